@@ -571,7 +571,16 @@ func AnyOf(ms ...CallMatcher) CallMatcher {
 // allOriginsAreResults checks that every origin of v is result #idx (idx<0:
 // the last result) of a call matching m; no unknown or zero definition.
 func allOriginsAreResults(v ssa.Value, m CallMatcher, idx int) bool {
+	// the call of a new helper is itself a candidate (m may select it); only then
+	// look through it at what it returns
+	if vals, unknown := OriginsNoExpand(v); allAreResults(vals, unknown, m, idx) {
+		return true
+	}
 	vals, unknown := Origins(v)
+	return allAreResults(vals, unknown, m, idx)
+}
+
+func allAreResults(vals []ssa.Value, unknown bool, m CallMatcher, idx int) bool {
 	if unknown || len(vals) == 0 {
 		return false
 	}
@@ -1557,11 +1566,35 @@ func cutAtCallX(m CallMatcher, depth int) func(ssa.Instruction) bool {
 func containsCall(fn *ssa.Function, m CallMatcher, depth int) bool {
 	found := false
 	Instrs(fn, func(in ssa.Instruction) {
-		if c, ok := in.(ssa.CallInstruction); ok && m(c.Common()) {
-			found = true
+		if c, ok := in.(ssa.CallInstruction); ok {
+			if m(c.Common()) {
+				found = true
+			} else if depth < 2 {
+				// a block moved into a function new since the anchor snapshot still belongs to fn
+				if h := CalleeFunc(c.Common()); h != nil && h != fn && h.Blocks != nil && IsRepoFunc(h) && IsNewFunc(h) && containsCall(h, m, depth+1) {
+					found = true
+				}
+			}
 		}
 	})
 	return found
+}
+
+// BoundValue follows helper parameters to the arguments they stand for while a
+// check is evaluated inside a helper (see BindParams).
+func BoundValue(v ssa.Value) ssa.Value {
+	for i := 0; i < 4; i++ {
+		pm, ok := v.(*ssa.Parameter)
+		if !ok {
+			break
+		}
+		b, ok := ParamBinding[pm]
+		if !ok || b == nil {
+			break
+		}
+		v = b
+	}
+	return v
 }
 
 // ContainsCall reports whether fn contains a call matching m.
@@ -1709,6 +1742,9 @@ func (c *Ctx) RequireAnyGate(rule string, fn *ssa.Function, gates []Gate, minSit
 		ok := true
 		// the loop is the one holding the sites of the first (primary) gate
 		_, primary := gates[0].PassEdges(fn)
+		if len(primary) == 0 {
+			primary = orSites // the disjunction is enforced by a helper called in the loop
+		}
 		for _, s := range primary {
 			l := InnermostLoop(loops, s)
 			if l == nil {
@@ -1940,6 +1976,7 @@ func ErrorExitsReachable(fn *ssa.Function, from ssa.Instruction, cut func(ssa.In
 		b   *ssa.BasicBlock
 		i   int
 		nil bool
+		nv  ssa.Value // a value tested nil on this path (stored into the cell later: `if err != nil {…}; return err`)
 	}
 	seen := map[st]bool{}
 	var out []*ssa.Return
@@ -1952,7 +1989,7 @@ func ErrorExitsReachable(fn *ssa.Function, from ssa.Instruction, cut func(ssa.In
 			startI = i + 1
 		}
 	}
-	work := []st{{startB, startI, false}}
+	work := []st{{startB, startI, false, nil}}
 	for len(work) > 0 {
 		s := work[len(work)-1]
 		work = work[:len(work)-1]
@@ -1961,6 +1998,10 @@ func ErrorExitsReachable(fn *ssa.Function, from ssa.Instruction, cut func(ssa.In
 		}
 		seen[s] = true
 		known := s.nil
+		nv := s.nv
+		if def, ok := nv.(ssa.Instruction); ok && s.i == 0 && def.Block() == s.b {
+			nv = nil // re-evaluated (loop): the earlier test says nothing about the new value
+		}
 		stopped := false
 		for i := s.i; i < len(s.b.Instrs) && !stopped; i++ {
 			in := s.b.Instrs[i]
@@ -1971,7 +2012,7 @@ func ErrorExitsReachable(fn *ssa.Function, from ssa.Instruction, cut func(ssa.In
 			switch x := in.(type) {
 			case *ssa.Store:
 				if x.Addr == ssa.Value(cell) {
-					known = IsNilConst(x.Val)
+					known = IsNilConst(x.Val) || (nv != nil && x.Val == nv)
 				}
 			case *ssa.Return:
 				if !known && !outSeen[x] {
@@ -1983,12 +2024,17 @@ func ErrorExitsReachable(fn *ssa.Function, from ssa.Instruction, cut func(ssa.In
 				a := AtomOf(x)
 				testsCell := false
 				nilWhenTrue := false
+				var tested ssa.Value
 				if (a.Op == token.EQL || a.Op == token.NEQ) && a.Y != nil {
 					var v ssa.Value
 					if IsNilConst(a.Y) {
 						v = a.X
 					} else if IsNilConst(a.X) {
 						v = a.Y
+					}
+					if v != nil && IsErrorType(v.Type()) {
+						tested = v
+						nilWhenTrue = a.Op == token.EQL
 					}
 					if u, ok := v.(*ssa.UnOp); ok && u.X == ssa.Value(cell) {
 						// the load must be of the current content: no store between load and test
@@ -2012,16 +2058,19 @@ func ErrorExitsReachable(fn *ssa.Function, from ssa.Instruction, cut func(ssa.In
 						continue
 					}
 					k := known
+					n2 := nv
+					atomTrue := si == a.TrueSucc()
 					if testsCell {
-						atomTrue := si == a.TrueSucc()
 						k = atomTrue == nilWhenTrue
+					} else if tested != nil && atomTrue == nilWhenTrue && s.b.Succs[0] != s.b.Succs[1] {
+						n2 = tested
 					}
-					work = append(work, st{succ, 0, k})
+					work = append(work, st{succ, 0, k, n2})
 				}
 				stopped = true
 			case *ssa.Jump:
 				if !removed[Edge{s.b, 0}] {
-					work = append(work, st{s.b.Succs[0], 0, known})
+					work = append(work, st{s.b.Succs[0], 0, known, nv})
 				}
 				stopped = true
 			}
